@@ -161,7 +161,13 @@ def build_machine(scn, lay):
             values[sid] = ("cls", sid, n) if kind in ("classmethod", "staticmethod") else ("v", p, n)
     objs = {}
     for p, attrs in holders.items():
-        cls = type("P_" + p, (Prov,), {k: v for k, v in attrs.items() if v is not None})
+        cattrs = {k: v for k, v in attrs.items() if v is not None}
+        if scn.get("falsy_providers"):
+            if p == "L1":
+                cattrs["__bool__"] = lambda self: False
+            else:
+                cattrs["__len__"] = lambda self: 0
+        cls = type("P_" + p, (Prov,), cattrs)
         o = cls()
         for k, v in attrs.items():
             if v is None:
